@@ -938,7 +938,7 @@ func ruleObjStmHeader(c *core.Ctx) {
 			}
 			o.At(fn.Site(cl, "object stream dict"))
 			v := g.MustVertexOf(cl)
-			if f["First"] == nil || !strings.Contains(core.ExprStr(f["First"]), "head.Len()") {
+			if f["First"] == nil || strings.ReplaceAll(core.ExprStr(f["First"]), " ", "") != "Integer(head.Len())" {
 				o.Fail("/First is %s, want head.Len()", core.ExprStr(f["First"]))
 			}
 			if g.PathExists(v, headWrite, nil) {
